@@ -897,6 +897,7 @@ type runeRingBuffer struct {
 	base       io.RuneReader
 	buf        [4]rune
 	start, end int
+	err        error // the error base ended with; base isn't read again after that.
 }
 
 func newRuneRingBuffer(r io.RuneReader) runeRingBuffer {
@@ -905,8 +906,12 @@ func newRuneRingBuffer(r io.RuneReader) runeRingBuffer {
 
 func (b *runeRingBuffer) ReadRune() (rune, int, error) {
 	if b.empty() {
+		if b.err != nil {
+			return 0, 0, b.err
+		}
 		r, n, err := b.base.ReadRune()
 		if err != nil {
+			b.err = err
 			return r, n, err
 		}
 		b.put(r)
